@@ -12,3 +12,4 @@ import NbioVerif.Properties.C04
 #print axioms ConnFull.c04_et_edge
 #print axioms ConnFull.c04_et_report_flushes
 #print axioms ConnFull.c04_et_edge_counterexample_early
+#print axioms ConnFull.c04_drains
